@@ -51,12 +51,14 @@ RULE = ('pos: random programs over most statement/expression productions written
         'generated programs, weighted 70 % to mutations.  time: 23 adversarial families at growing lengths.')
 EXHAUSTIVE = {'quick': False, 'thorough': False}
 ASSUMPTIONS = [
-    'PLY 3.11 semantics (master alternation in definition order, t_ignore, t_error skip) and Python re semantics of '
-    'each rule regex are hand-modelled as scanners, tied by the token-stream correspondence on every case',
+    'PLY 3.11 semantics (master alternation in definition order, t_ignore, t_error skip) are hand-modelled; Python re '
+    'semantics are those of the generic matcher lean/PyxModel/Regex.lean (the scanners are PROVED equal to it on the '
+    'ASTs generated from the rule regexes), which is compared with re.match on random regexes and with PLY on every case',
     'the lexer model cannot be fed lone surrogates (UTF-8 pipe); such inputs are checked on the implementation only',
     'wall-clock bounds of `re` are validated (budget 1.0 s + 0.5 ms per character), not proved',
 ]
 TRUSTED_EXTRA = ['translator/gen_oallex.py (rule table, flags of the rule bodies, first-character sets of the COMMENT alternatives)',
+                 'translator/regex_ast.py (regex source -> AST through re._parser; compared with re.match on random sources)',
                  'harness/gen_oal_text.py (the writer\'s own offset/line/column counters are the position oracle)']
 CHUNK = 1500
 RX_LIMIT = 2500          # Driver/C13.lean rxLimit: the generic regex engine is run on texts up to this length
